@@ -424,6 +424,17 @@ def main(argv=None):
                     violations.append({'task': 'fixed-regression',
                                        'key': v.key, 'message': v.message,
                                        'case': v.case, 'replay': e['replay']})
+        # inputs kept because a seeded change needed exactly them: replayed
+        # in every run so that catching it does not depend on the seed
+        import glob
+        for path in sorted(glob.glob(os.path.join(
+                VERIF, 'replays', prop_id, 'core-*.json'))):
+            rel = os.path.relpath(path, VERIF)
+            v = do_replay(mod, rel, list(open_keys))
+            if v is not None and not match_known(v.key, list(open_keys)):
+                violations.append({'task': 'core-replay', 'key': v.key,
+                                   'message': v.message, 'case': v.case,
+                                   'replay': rel})
     except Exception:
         print('HARNESS-ERROR: known-finding replay failed to run')
         traceback.print_exc()
